@@ -13,6 +13,7 @@ import (
 	"fmt"
 	"runtime"
 	"sync"
+	"time"
 
 	"github.com/onflow/atree"
 )
@@ -102,8 +103,24 @@ func runPreload(ledger *LogBase, ids []atree.SlabID, workers int, failRead int, 
 			res.bad = "panic: " + fmt.Sprint(r)
 		}
 	}()
-	if err := st.BatchPreload(ids, workers); err != nil {
-		res.err = err.Error()
+	// watchdog: a preload that does not return is a finding by itself (the goroutine is abandoned)
+	done := make(chan error, 1)
+	go func() {
+		defer func() {
+			if r := recover(); r != nil {
+				done <- fmt.Errorf("panic: %v", r)
+			}
+		}()
+		done <- st.BatchPreload(ids, workers)
+	}()
+	select {
+	case err := <-done:
+		if err != nil {
+			res.err = err.Error()
+		}
+	case <-time.After(20 * time.Second):
+		res.bad = fmt.Sprintf("BatchPreload with %d workers over %d ids did not return within 20 s (deadlock)", workers, len(ids))
+		return res
 	}
 	_, c := atree.VerifStorageKeys(st)
 	res.cacheKeys = keySetStr(c)
